@@ -18,6 +18,8 @@ struct Live {
     hname: String,
     last_fill: usize,
     maxbuf: Option<usize>,
+    /// a second handle kept alive (neither used nor dropped) while another stream is worked on
+    parked: Option<(cfb::Stream<SharedBuf>, String)>,
 }
 
 fn ok(v: Value) -> Value {
@@ -83,7 +85,7 @@ fn setup(hist: &Value, dict: &Dict) -> io::Result<Live> {
         c.chunks = hist["chunks"].as_array().map(|a| a.iter().map(|x| x.as_i64().unwrap()).collect()).unwrap_or_default();
     }
     let maxbuf = hist["maxbuf"].as_u64().map(|n| n as usize);
-    Ok(Live { buf, cf: None, h: None, hname: String::new(), last_fill: 0, maxbuf })
+    Ok(Live { buf, cf: None, h: None, hname: String::new(), last_fill: 0, maxbuf, parked: None })
 }
 
 fn exec(live: &mut Live, op: &Value, dict: &Dict) -> Value {
@@ -157,6 +159,31 @@ fn exec(live: &mut Live, op: &Value, dict: &Dict) -> Value {
             live.h = None;
             live.last_fill = 0;
             ok(json!("unit"))
+        }
+        "park" => {
+            // set the current handle aside, as it is (possibly with unwritten data)
+            match live.h.take() {
+                Some(h) => {
+                    live.parked = Some((h, std::mem::take(&mut live.hname)));
+                    live.last_fill = 0;
+                    ok(json!("unit"))
+                }
+                None => nohandle(),
+            }
+        }
+        "unpark" => {
+            if live.h.is_some() {
+                return json!({"k": "err", "e": "NoHandle"});      // the script closes the current handle first
+            }
+            match live.parked.take() {
+                Some((h, n)) => {
+                    live.h = Some(h);
+                    live.hname = n;
+                    live.last_fill = 0;
+                    ok(json!("unit"))
+                }
+                None => nohandle(),
+            }
         }
         _ => {
             let Some(s) = live.h.as_mut() else { return nohandle(); };
